@@ -103,6 +103,13 @@ Proof.
 Qed.
 
 (* ---------- one character of N2kUTF8ToUCS2 on well-formed UTF-8 ---------- *)
+Lemma dec2 c : 128 <= c < 2048 -> ((192 + c / 64) mod 32) * 64 + (128 + c mod 64) mod 64 = c.
+Proof. intros H. lia. Qed.
+
+Lemma dec3 c : 2048 <= c < 65536 ->
+  ((224 + c / 4096) mod 16) * 4096 + ((128 + (c / 64) mod 64) mod 64) * 64 + (128 + c mod 64) mod 64 = c.
+Proof. intros H. lia. Qed.
+
 Lemma ucs2_char_utf8 s p c rest : scalar c -> at_ s p (enc_cp c ++ rest) ->
   exists b0, rd s p = Ok b0 /\ b0 <> 0 /\ ucs2_char s p b0 = Ok (bmp_repl c, Z.of_nat (length (enc_cp c))).
 Proof.
@@ -111,20 +118,33 @@ Proof.
   destruct (enc_cp_shape c Hc) as (b0 & tl & E & Hll & Hb0 & _). exists b0.
   pose proof (at_rd _ _ _ Hat) as Hrd. rewrite E in Hrd. cbn [app] in Hrd.
   split; [exact Hrd|]. split; [lia|].
-  unfold ucs2_char. rewrite Hll.
+  unfold ucs2_char. rewrite Hll. clear Hll.
   unfold enc_cp in *. unfold bmp_repl.
   destruct (Z.ltb_spec c 128).
-  { injection E as <- <-. cbn [length Z.of_nat Pos.of_succ_nat Z.eqb Pos.eqb]. destruct (Z.ltb_spec c 65536); [|lia]. reflexivity. }
+  { injection E as <- <-. change (Z.of_nat (length [c])) with 1. change (1 =? 1) with true. cbv iota.
+    destruct (Z.ltb_spec c 65536); [|lia]. reflexivity. }
   destruct (Z.ltb_spec c 2048).
-  { injection E as <- <-. cbn [length] in *. change (Z.of_nat 2) with 2 in *. cbn [Z.eqb Pos.eqb]. rewrite Hcb. cbn [bind Z.eqb Pos.eqb].
-    pose proof (at_app s p [192 + c / 64] ([128 + c mod 64] ++ rest) (p + 1) Hat ltac:(cbn [length]; lia)) as H1.
-    rewrite (at_rd _ _ _ H1). cbn [app bind]. destruct (Z.ltb_spec c 65536); [|lia]. f_equal. f_equal. lia. }
+  { pose proof (dec2 c ltac:(lia)) as Hdec.
+    remember (192 + c / 64) as x0 eqn:Ex0. remember (128 + c mod 64) as x1 eqn:Ex1.
+    injection E as <- <-. change (Z.of_nat (length [x0; x1])) with 2 in *.
+    change (2 =? 1) with false. change (2 =? 0) with false. change (2 =? 2) with true. cbv iota.
+    rewrite Hcb. unfold bind at 1. change (2 =? 2) with true. cbv iota.
+    pose proof (at_app s p [x0] ([x1] ++ rest) (p + 1) Hat ltac:(cbn [length]; lia)) as Hat1.
+    rewrite (at_rd _ _ _ Hat1). unfold app, bind. destruct (Z.ltb_spec c 65536); [|lia]. rewrite Hdec. reflexivity. }
   destruct (Z.ltb_spec c 65536).
-  { injection E as <- <-. cbn [length] in *. change (Z.of_nat 3) with 3 in *. cbn [Z.eqb Pos.eqb]. rewrite Hcb. cbn [bind Z.eqb Pos.eqb].
-    pose proof (at_app s p [224 + c / 4096] ([128 + (c / 64) mod 64; 128 + c mod 64] ++ rest) (p + 1) Hat ltac:(cbn [length]; lia)) as H1.
-    pose proof (at_app s (p + 1) [128 + (c / 64) mod 64] ([128 + c mod 64] ++ rest) (p + 2) H1 ltac:(cbn [length]; lia)) as H2.
-    rewrite (at_rd _ _ _ H1), (at_rd _ _ _ H2). cbn [app bind]. f_equal. f_equal. lia. }
-  injection E as <- <-. cbn [length] in *. change (Z.of_nat 4) with 4 in *. cbn [Z.eqb Pos.eqb]. rewrite Hcb. cbn [bind]. reflexivity.
+  { pose proof (dec3 c ltac:(lia)) as Hdec.
+    remember (224 + c / 4096) as x0 eqn:Ex0. remember (128 + (c / 64) mod 64) as x1 eqn:Ex1. remember (128 + c mod 64) as x2 eqn:Ex2.
+    injection E as <- <-. change (Z.of_nat (length [x0; x1; x2])) with 3 in *.
+    change (3 =? 1) with false. change (3 =? 0) with false. change (3 =? 2) with false. change (3 =? 3) with true. cbv iota.
+    rewrite Hcb. unfold bind at 1. change (3 =? 3) with true. cbv iota.
+    pose proof (at_app s p [x0] ([x1; x2] ++ rest) (p + 1) Hat ltac:(cbn [length]; lia)) as Hat1.
+    pose proof (at_app s (p + 1) [x1] ([x2] ++ rest) (p + 2) Hat1 ltac:(cbn [length]; lia)) as Hat2.
+    rewrite (at_rd _ _ _ Hat1), (at_rd _ _ _ Hat2). unfold app, bind. rewrite Hdec. reflexivity. }
+  remember (240 + c / 262144) as x0 eqn:Ex0. remember (128 + (c / 4096) mod 64) as x1 eqn:Ex1.
+  remember (128 + (c / 64) mod 64) as x2 eqn:Ex2. remember (128 + c mod 64) as x3 eqn:Ex3.
+  injection E as <- <-. change (Z.of_nat (length [x0; x1; x2; x3])) with 4 in *.
+  change (4 =? 1) with false. change (4 =? 0) with false. change (4 =? 2) with false. change (4 =? 3) with false. cbv iota.
+  rewrite Hcb. reflexivity.
 Qed.
 
 (* ---------- N2kUTF8ToUCS2 on well-formed UTF-8 ---------- *)
@@ -192,3 +212,181 @@ Proof.
   - apply (at_app s p (b0 :: tl) (utf8 cps)); [exact Hat|cbn [length]; lia].
   - rewrite E in Hlen. cbn [length] in Hlen. lia.
 Qed.
+
+(* ---------- the field AddVarStr makes of well-formed UTF-8 with a non-ASCII character ---------- *)
+Lemma var_field_utf8 cps maxlen chars dl : Forall scalar cps -> forallb (fun c => c <? 128) cps = false -> 0 <= maxlen -> 0 <= dl <= 221 ->
+  exists type,
+  var_field (utf8 cps) maxlen true chars dl =
+  Ok (type, ucs2le (firstn (Z.to_nat (Z.min (221 - dl) (if chars then 2 * maxlen else maxlen) / 2)) (map bmp_repl cps))) /\
+  (type = 0 \/ (type = 1 /\ Z.to_nat (Z.min (221 - dl) (if chars then 2 * maxlen else maxlen) / 2) = 0%nat)).
+Proof.
+  intros Hsc Hna Hmax Hdl. unfold var_field.
+  destruct (Z.leb_spec (223 - dl) 2).
+  { exists 1. assert (Hk0 : Z.to_nat (Z.min (221 - dl) (if chars then 2 * maxlen else maxlen) / 2) = 0%nat) by (destruct chars; lia).
+    rewrite Hk0. split; [reflexivity|right; split; reflexivity]. }
+  destruct cps as [|c cps]; [discriminate|].
+  set (s := utf8 (c :: cps)) in *.
+  pose proof (at_0 s) as Hat.
+  assert (Hat' := Hat). unfold s in Hat' at 2. rewrite utf8_cons in Hat'.
+  destruct (ucs2_char_utf8 s 0 c (utf8 cps) (Forall_inv Hsc) Hat') as (b0 & Erd & Hnz & _). rewrite Erd. cbn [bind].
+  destruct (Z.eqb_spec b0 0); [lia|].
+  unfold require_unicode. rewrite (ru_loop_utf8 s (c :: cps) (S (length s)) 0 Hsc Hna Hat) by lia. cbn [bind].
+  rewrite (u2u_pure_utf8 s _ (c :: cps) (S (length s)) 0 0 Hsc Hat) by lia. cbn [bind].
+  exists 0. split; [|left; reflexivity]. f_equal. f_equal. f_equal. f_equal. f_equal.
+  destruct chars.
+  - destruct (Z.gtb_spec (223 - dl - 2) (maxlen * 2)); lia.
+  - destruct (Z.gtb_spec (223 - dl - 2) maxlen); lia.
+Qed.
+
+(* ---------- N2kUCS2ToUTF8 on the UCS-2 form of BMP code points ---------- *)
+Definition bmpc (nul:Z) (c:Z) : Prop := 1 <= c < 65536 /\ c <> nul.
+
+Lemma u2utf_pure_ucs2le nul buflen : forall cs ulen, Forall (bmpc nul) cs ->
+  u2utf_pure (ucs2le cs) ulen buflen nul = utf8 (take_fit (buflen - ulen) cs).
+Proof.
+  induction cs as [|c cs IH]; intros ulen Hcs; [reflexivity|].
+  pose proof (Forall_inv Hcs) as [Hc Hn]. pose proof (Forall_inv_tail Hcs) as Hcs'.
+  unfold ucs2le. cbn [flat_map app]. fold (ucs2le cs). cbn [u2utf_pure take_fit].
+  replace (c mod 256 + c / 256 * 256) with c by lia.
+  unfold enc_cp.
+  destruct (Z.ltb_spec c 128).
+  { cbn [length]. change (Z.of_nat 1) with 1.
+    destruct (Z.ltb_spec ulen buflen); destruct (Z.leb_spec 1 (buflen - ulen)); try lia; [|reflexivity].
+    destruct (Z.eqb_spec c nul); [lia|]. rewrite IH by exact Hcs'. rewrite utf8_cons. unfold enc_cp.
+    destruct (Z.ltb_spec c 128); [|lia]. cbn [app]. do 3 f_equal. lia. }
+  destruct (Z.ltb_spec c 2048).
+  { cbn [length]. change (Z.of_nat 2) with 2.
+    destruct (Z.ltb_spec ulen buflen); destruct (Z.leb_spec 2 (buflen - ulen)); try lia; try reflexivity.
+    - destruct (Z.ltb_spec (ulen + 1) buflen); [|lia]. rewrite IH by exact Hcs'. rewrite utf8_cons. unfold enc_cp.
+      destruct (Z.ltb_spec c 128); [lia|]. destruct (Z.ltb_spec c 2048); [|lia]. cbn [app]. do 4 f_equal. lia.
+    - destruct (Z.ltb_spec (ulen + 1) buflen); [lia|]. reflexivity. }
+  destruct (Z.ltb_spec c 65536); [|lia].
+  cbn [length]. change (Z.of_nat 3) with 3.
+  destruct (Z.ltb_spec ulen buflen); destruct (Z.leb_spec 3 (buflen - ulen)); try lia; try reflexivity.
+  - destruct (Z.ltb_spec (ulen + 2) buflen); [|lia]. rewrite IH by exact Hcs'. rewrite utf8_cons. unfold enc_cp.
+    destruct (Z.ltb_spec c 128); [lia|]. destruct (Z.ltb_spec c 2048); [lia|]. destruct (Z.ltb_spec c 65536); [|lia].
+    cbn [app]. do 5 f_equal. lia.
+  - destruct (Z.ltb_spec (ulen + 2) buflen); [lia|]. reflexivity.
+Qed.
+
+(* ---------- helpers for the final assembly ---------- *)
+Lemma bmp_repl_bmpc nul cps : Forall scalar cps -> ~ In nul (map bmp_repl cps) -> Forall (bmpc nul) (map bmp_repl cps).
+Proof.
+  intros Hsc Hn. apply Forall_forall. intros x Hx. split.
+  - apply in_map_iff in Hx. destruct Hx as (c & <- & Hc). rewrite Forall_forall in Hsc. specialize (Hsc c Hc).
+    apply scalar_range in Hsc. unfold bmp_repl. destruct (Z.ltb_spec c 65536); lia.
+  - intros ->. exact (Hn Hx).
+Qed.
+
+Lemma Forall_firstn {A} (P:A -> Prop) n l : Forall P l -> Forall P (firstn n l).
+Proof. intros H. rewrite <- (firstn_skipn n l) in H. apply Forall_app in H. tauto. Qed.
+
+Lemma take_fit_sub room : forall cs, exists k, take_fit room cs = firstn k cs.
+Proof.
+  intros cs. revert room. induction cs as [|c cs IH]; intros room; [exists 0%nat; reflexivity|].
+  cbn [take_fit]. destruct (Z.of_nat (length (enc_cp c)) <=? room).
+  - destruct (IH (room - Z.of_nat (length (enc_cp c)))) as (k & ->). exists (S k). reflexivity.
+  - exists 0%nat. reflexivity.
+Qed.
+
+Lemma utf8_nz cs : Forall (fun c => 1 <= c < 65536) cs -> Forall (fun b => b <> 0) (utf8 cs).
+Proof.
+  induction cs as [|c cs IH]; intros H; [constructor|]. rewrite utf8_cons. apply Forall_app. split.
+  - pose proof (Forall_inv H) as Hc. cbn beta in Hc. unfold enc_cp.
+    destruct (Z.ltb_spec c 128); [repeat constructor; lia|].
+    destruct (Z.ltb_spec c 2048); [repeat constructor; lia|].
+    destruct (Z.ltb_spec c 65536); [repeat constructor; lia|lia].
+  - apply IH. exact (Forall_inv_tail H).
+Qed.
+
+Lemma c_str_splice (dest:list Z) out : Forall (fun b => b <> 0) out -> c_str (splice dest 0 (out ++ [0])) = out.
+Proof. intros H. unfold splice. cbn [firstn app]. rewrite <- app_assoc. cbn [app]. apply c_str_app_zero. exact H. Qed.
+
+(* plain ASCII code points *)
+Lemma ascii_cps cps : Forall scalar cps -> forallb (fun c => c <? 128) cps = true ->
+  utf8 cps = cps /\ map bmp_repl cps = cps /\ ascii cps /\ forall room, 0 <= room -> take_fit room cps = firstn (Z.to_nat room) cps.
+Proof.
+  induction cps as [|c cps IH]; intros Hsc Ha.
+  - repeat split; try reflexivity; [constructor|]. intros room _. rewrite firstn_nil. reflexivity.
+  - cbn [forallb] in Ha. apply andb_true_iff in Ha. destruct Ha as [Hc Ha]. apply Z.ltb_lt in Hc.
+    pose proof (scalar_range c (Forall_inv Hsc)) as Hr.
+    destruct (IH (Forall_inv_tail Hsc) Ha) as (Hu & Hm & Hasc & Htf).
+    assert (He : enc_cp c = [c]) by (unfold enc_cp; destruct (Z.ltb_spec c 128); [reflexivity|lia]).
+    repeat split.
+    + rewrite utf8_cons, He, Hu. reflexivity.
+    + cbn [map]. rewrite Hm. unfold bmp_repl. destruct (Z.ltb_spec c 65536); [reflexivity|lia].
+    + constructor; [lia|exact Hasc].
+    + intros room Hroom. cbn [take_fit]. rewrite He. cbn [length]. change (Z.of_nat 1) with 1.
+      destruct (Z.leb_spec 1 room).
+      * rewrite Htf by lia. replace (Z.to_nat room) with (S (Z.to_nat (room - 1))) by lia. reflexivity.
+      * replace (Z.to_nat room) with 0%nat by lia. reflexivity.
+Qed.
+
+Lemma utf8_ascii l : ascii l -> utf8 l = l.
+Proof.
+  induction l as [|c l IH]; intros H; [reflexivity|]. rewrite utf8_cons, IH by exact (Forall_inv_tail H).
+  pose proof (Forall_inv H) as Hc. cbn beta in Hc. unfold enc_cp. destruct (Z.ltb_spec c 128); [reflexivity|lia].
+Qed.
+
+Lemma take_fit_ascii l : ascii l -> forall room, 0 <= room -> take_fit room l = firstn (Z.to_nat room) l.
+Proof.
+  induction l as [|c l IH]; intros H room Hr; [rewrite firstn_nil; reflexivity|].
+  pose proof (Forall_inv H) as Hc. cbn beta in Hc. cbn [take_fit].
+  assert (He : enc_cp c = [c]) by (unfold enc_cp; destruct (Z.ltb_spec c 128); [reflexivity|lia]).
+  rewrite He. cbn [length]. change (Z.of_nat 1) with 1.
+  destruct (Z.leb_spec 1 room).
+  - rewrite IH by (try exact (Forall_inv_tail H); lia). replace (Z.to_nat room) with (S (Z.to_nat (room - 1))) by lia. reflexivity.
+  - replace (Z.to_nat room) with 0%nat by lia. reflexivity.
+Qed.
+
+(* ---------- 6. the statement ---------- *)
+Theorem roundtrip_bmp : roundtrip_bmp_stmt.
+Proof.
+  intros m cps maxlen chars nul dest Hp Hfill Hsc Hmax Hnin size Hsize.
+  pose proof Hp as [Hd Hl].
+  destruct (forallb (fun c => c <? 128) cps) eqn:Ha.
+  - (* plain ASCII text stays a byte string *)
+    destruct (ascii_cps cps Hsc Ha) as (Hu & Hm & Hasc & _).
+    rewrite Hm in Hnin.
+    destruct (roundtrip_var_ascii m cps maxlen true chars nul dest Hp Hfill Hasc Hmax Hnin Hsize) as (m' & sz & d & Ea & Eg & Ec).
+    exists m', sz, d. rewrite Hu. split; [exact Ea|]. split; [exact Eg|].
+    fold size in Ec. rewrite Ec. unfold var_chars. rewrite Ha, Hm.
+    set (kk := Z.min (Z.min (Z.of_nat (length cps)) maxlen) (221 - mlen m)).
+    unfold zfirstn.
+    assert (Hak : ascii (firstn (Z.to_nat kk) cps)) by (apply Forall_firstn; exact Hasc).
+    rewrite (take_fit_ascii _ Hak) by lia.
+    rewrite utf8_ascii by (apply Forall_firstn; exact Hak).
+    rewrite firstn_firstn. f_equal. lia.
+  - (* UCS-2 *)
+    destruct (add_var_str_spec m (utf8 cps) maxlen true chars Hp Hfill (utf8_cstring cps Hsc) Hmax) as (ty & body & Ef & Ea & Hb & _).
+    destruct (var_field_utf8 cps maxlen chars (mlen m) Hsc Ha Hmax ltac:(lia)) as (ty' & Ef' & Hty).
+    rewrite Ef' in Ef.
+    assert (Hty_eq : ty' = ty) by congruence.
+    assert (Hbody : body = ucs2le (firstn (Z.to_nat (Z.min (221 - mlen m) (if chars then 2 * maxlen else maxlen) / 2)) (map bmp_repl cps))) by congruence.
+    subst ty' body. clear Ef.
+    unfold var_chars. rewrite Ha. unfold zfirstn.
+    set (k := Z.to_nat (Z.min (221 - mlen m) (if chars then 2 * maxlen else maxlen) / 2)) in *.
+    set (cs := firstn k (map bmp_repl cps)) in *.
+    assert (Hcs : Forall (bmpc nul) cs) by (apply Forall_firstn; apply bmp_repl_bmpc; assumption).
+    assert (Hty' : ty = 0 \/ ty = 1) by (destruct Hty as [?|[? _]]; [left|right]; assumption).
+    destruct (get_var_str_appended m ty (ucs2le cs) dest nul Hp ltac:(lia) Hty' Hsize) as (Hp' & Hml & Hfrom & Eg).
+    fold size in Eg.
+    set (m' := appended m (Z.of_nat (length (ucs2le cs)) + 2 :: ty :: ucs2le cs)) in *.
+    exists m'.
+    destruct (Z.eqb_spec (Z.of_nat (length (ucs2le cs))) 0) as [E0|Hne].
+    + exists 0, (zset dest 0 0). split; [exact Ea|]. split; [rewrite Eg, Hml; f_equal; f_equal; f_equal; lia|].
+      rewrite c_str_zset0 by lia. rewrite ucs2le_length in E0. destruct cs as [|? ?]; [reflexivity|cbn [length] in E0; lia].
+    + assert (Hty0 : ty = 0).
+      { destruct Hty as [?|[_ Hk0]]; [assumption|]. exfalso. apply Hne. subst cs. rewrite Hk0. reflexivity. }
+      subst ty. change (0 =? 1) with false in Eg. cbv iota in Eg.
+      destruct (ucs2_to_utf8_spec m' dest (mlen m + 2) (Z.of_nat (length (ucs2le cs))) nul Hp' ltac:(lia) ltac:(lia) ltac:(lia) Hsize) as [E _].
+      fold size in E. rewrite E in Eg. cbn [bind fst snd] in Eg.
+      eexists _, _. split; [exact Ea|]. split; [rewrite Eg, Hml; reflexivity|].
+      rewrite Hfrom, Nat2Z.id, firstn_app_exact by reflexivity.
+      rewrite (u2utf_pure_ucs2le nul (size - 1) cs 0 Hcs). rewrite Z.sub_0_r.
+      apply c_str_splice. apply utf8_nz.
+      destruct (take_fit_sub (size - 1) cs) as (j & ->). apply Forall_firstn.
+      eapply Forall_impl; [|exact Hcs]. unfold bmpc. cbn beta. tauto.
+Qed.
+
+Print Assumptions roundtrip_bmp.
